@@ -290,6 +290,66 @@ def r03_7(prog, rep):
         rep.check(beneath, "R03.7", sorted({q for q, _ in sites})[0], f.loc, "the Required / NotRequired marker is looked for beneath Annotated[...]", "the marker is read off the outermost origin of the evaluated hint: for `id: Annotated[Required[int], 'pk']` in a string annotation (PEP 563) that origin is Annotated, the marker is missed and the stale runtime __required_keys__ is kept -- unmarshal(Patch, {'note': 'x'}) returns a Patch without its required `id`", detail="typeddict-required-annotated")
         where = sorted({q for q, _ in sites})[0]
         rep.check(ok_eval, "R03.7", where, f.loc, "the required keys are corrected from the evaluated hints (NotRequired / Required written in string annotations)", "the required keys are taken from the runtime's __required_keys__ as they are: under `from __future__ import annotations` (or for a quoted member) the runtime cannot see NotRequired[...], lists the key as required, and a valid value that omits it is rejected -- unmarshal(Movie, {'title': 'Alien'}) raises 'missing required keys: [year]' for `year: NotRequired[int]`", detail="typeddict-required-evaluated")
+    # the correction itself, in whoever performs it: a key is *removed* where its marker is NotRequired and *added* where it is
+    # Required (never the other way round, never under the negated test); Annotated is peeled at its first argument; and the
+    # correction is not skipped for TypedDicts
+    for q_, gps in dict(sites).items():
+        if not any(T.contains(tm, lambda x: T.refname(x) in ("typing.NotRequired", "typing_extensions.NotRequired")) for pth in gps for tm in pth.all_terms()):
+            continue
+        NR = ("typing.NotRequired", "typing_extensions.NotRequired")
+        RQ = ("typing.Required", "typing_extensions.Required")
+        is_marker = lambda a, names: a[0] == "cmp" and a[1] in ("is", "==") and any(T.refname(x) in names for x in a[2:4])  # noqa: E731
+        wrong = []
+        for pth in gps:
+            atoms = T.derive_atoms(pth.guards())
+            nr = [val for a, val in atoms if is_marker(a, NR)]
+            rq = [val for a, val in atoms if is_marker(a, RQ)]
+            for e in pth.events:
+                if e[0] == "eval" and e[1][0] == "call" and e[1][1][0] == "attr" and e[1][2]:
+                    m = e[1][1][2]
+                    if m in ("discard", "remove") and not (nr and nr[-1]):
+                        wrong.append("a key is removed on a path where its marker is not known to be NotRequired")
+                    if m == "add" and not (rq and rq[-1]):
+                        wrong.append("a key is added on a path where its marker is not known to be Required")
+            # set algebra: keys -= {… if m is NotRequired} / keys |= {… if m is Required}: every comprehension selected by a marker
+            # is found with the sign under which it enters the result
+            signed = []
+
+            def collect(tm, added):
+                if tm[0] == "binop" and tm[1] in ("-", "-="):
+                    collect(tm[2], added)
+                    collect(tm[3], not added)
+                elif tm[0] == "binop" and tm[1] in ("|", "|="):
+                    collect(tm[2], added)
+                    collect(tm[3], added)
+                elif tm[0] == "call" and T.refname(tm[1]) in ("builtins.frozenset", "builtins.set") and len(tm[2]) == 1:
+                    collect(tm[2][0], added)
+                elif tm[0] == "comp" and tm[4]:
+                    signed.append((tm, added))
+
+            if pth.exit[0] == "return":
+                collect(pth.exit[1], True)
+            for c, added in signed:
+                flat = []
+                for cd in c[4]:
+                    flat += list(cd[2]) if cd[0] == "boolop" and cd[1] == "and" else [cd]
+                pos_nr = any(is_marker(cd, NR) for cd in flat)
+                pos_rq = any(is_marker(cd, RQ) for cd in flat)
+                neg = any(cd[0] == "not" and (is_marker(cd[1], NR) or is_marker(cd[1], RQ)) for cd in flat) or any(cd[0] == "cmp" and cd[1] in ("isnot", "!=") and any(T.refname(y) in NR + RQ for y in cd[2:4]) for cd in flat)
+                if neg:
+                    wrong.append("the keys are selected by a *negated* marker test")
+                if pos_rq and not pos_nr and not added:
+                    wrong.append("the Required keys are subtracted")
+                if pos_nr and not pos_rq and added:
+                    wrong.append("the NotRequired keys are added")
+            for tm in pth.all_terms():
+                for x in T.walk(tm):
+                    if x[0] == "sub" and T.is_call_to(x[1], "typing.get_args") and x[2][0] == "const" and x[2][1] != 0 and any(T.contains(g, lambda y: T.refname(y) in ("typing.Annotated", "typing_extensions.Annotated")) for g, _ in pth.guards()):
+                        wrong.append(f"Annotated[...] is peeled at argument {x[2][1]} (the metadata), not at its first argument (the type)")
+            # a TypedDict never leaves without the correction
+            if pth.exit[0] == "return" and any(val and T.is_call_to(a, f"{C.INSP}.istypeddict") for a, val in atoms) and not any(T.contains(tm, lambda x: T.is_call_to(x, "typing.get_type_hints")) for tm in pth.all_terms()) and not any(e[0] in ("caught", "suppressed") for e in pth.events):
+                wrong.append("a TypedDict is answered from the runtime's __required_keys__ without the correction")
+        rep.check(not wrong, "R03.7", q_, f.loc, "a key is removed exactly where its marker is NotRequired and added exactly where it is Required", f"the correction of the required keys is wrong: {sorted(set(wrong))[:2]} -- under string annotations a NotRequired key is demanded or a Required one is not: unmarshal(Movie, {{'title': 'Alien'}}) raises for `year: NotRequired[int]`, or returns a Movie without a Required key", detail="typeddict-required-markers")
     # a parameterised generic TypedDict (`Page[int]`) is an alias object: it forwards no dunder attribute of the class.  Whoever
     # reads a TypedDict dunder (__required_keys__, __total__, __optional_keys__) reads it from the origin class
     DUNDERS = ("__required_keys__", "__total__", "__optional_keys__")
